@@ -48,6 +48,22 @@ def correspondence(ctx):
             tab[n - 1] = str(n - 1)
             cases.append(f'stabilize|0|{" ".join(tab)}')
             shapes[cases[-1]] = orbit_shape(tab, 0)
+    # the same function tables over state strings with multi-byte characters that share lead bytes and prefixes (family 1:
+    # a byte-wise common prefix, a pointer or length comparison instead of string equality goes wrong on these)
+    fam1 = []
+    for c in list(cases):
+        f_ = c.split('|')
+        if len(f_[2].split()) <= 12:
+            fam1.append(c + '|1')
+            shapes[fam1[-1]] = shapes[c]
+    for _ in range(4000 if ctx.tier == 'quick' else 80000):
+        n = 12
+        vals = [str(i) for i in range(n)] + ['E', 'I']
+        tab = [ctx.rng.choice(vals[:n]) if ctx.rng.random() < 0.85 else ctx.rng.choice(vals) for _ in range(n)]
+        start = ctx.rng.randrange(n)
+        fam1.append(f'stabilize|{start}|{" ".join(tab)}|1')
+        shapes[fam1[-1]] = orbit_shape(tab, start)
+    cases += fam1
     res = run_cases(cases, ctx.work)
     evaluate(corr, res, nontrivial=lambda case, impl: (shapes[case], impl.split(';')[0].split(':')[0]) if shapes[case][0] >= 1 else None)
     for c, sh in shapes.items():
